@@ -74,9 +74,11 @@ class Worker:
         self.stats = []
         self.deaths = []
 
-    def run(self, on_result, stall_timeout=120):
+    def run(self, on_result, stall_timeout=120, stop=None):
         a = self.a
         while a < self.b:
+            if stop is not None and stop[0]:
+                return
             pf = tempfile.NamedTemporaryFile(prefix='prog', dir=scratch_dir(), delete=False)
             pf.close()
             ef = tempfile.NamedTemporaryFile(prefix='err', dir=scratch_dir(), delete=False)
@@ -84,6 +86,7 @@ class Worker:
             p = subprocess.Popen(cmd, stdout=subprocess.PIPE, stderr=ef, text=True, env=self.env, errors='replace')
             tail = []
             done = False
+            restart = False
             last = [time.time()]
             killed = [False]
 
@@ -99,6 +102,9 @@ class Worker:
             next_a = a
             for line in p.stdout:
                 last[0] = time.time()
+                if stop is not None and stop[0]:
+                    p.kill()
+                    break
                 line = line.rstrip('\n')
                 tail.append(line)
                 if len(tail) > 20:
@@ -115,6 +121,8 @@ class Worker:
                         pass
                 elif line.startswith('DONE'):
                     done = True
+                elif line.startswith('RESTART'):
+                    restart = True
             p.wait()
             ef.close()
             stderr_text = open(ef.name, errors='replace').read()
@@ -123,13 +131,18 @@ class Worker:
             os.unlink(ef.name)
             if done and p.returncode == 0:
                 return
+            if stop is not None and stop[0]:
+                return
+            if restart and p.returncode == 0:
+                a = next_a
+                continue
             # death
             run = prog['run'] if prog and prog['run'] >= next_a else next_a
             if killed[0]:
                 cls, detail = 'no-progress', 'no output for %ds (wall-clock backstop)' % stall_timeout
             else:
                 cls, detail = classify_death(p.returncode, stderr_text, tail)
-            on_result(dict(run=run, seed=prog['seed'] if prog else 0, ok=False, death=True, cls=cls, detail=detail,
+            on_result(dict(run=run, seed=prog['seed'] if prog else 0, ok=False, death=True, cls=cls, detail=detail, proc_start=a,
                            op=prog['op'] if prog else -1, op_kind=prog['op_kind'] if prog else 0,
                            fault_kind=prog['fault_kind'] if prog else 0, stack=prog['stack'] if prog else -1,
                            stderr=stderr_text[-6000:]))
@@ -153,17 +166,23 @@ def parse_run_line(line):
     return r
 
 
-def run_batch(exe, base_args, nruns, workers, env=None, wrapper=None, start=0, budget_violations=40, stall_timeout=120):
+def run_batch(exe, base_args, nruns, workers, env=None, wrapper=None, start=0, budget_violations=200, stall_timeout=120):
     """Run indices [start, start+nruns) over `workers` processes. Returns (results, merged stats)."""
     results = []
     lock = threading.Lock()
     nviol = [0]
+
+    stop = [False]
 
     def on_result(r):
         with lock:
             results.append(r)
             if not r['ok']:
                 nviol[0] += 1
+                # a change that breaks most runs would otherwise cost one process
+                # restart per run: enough is enough
+                if nviol[0] >= budget_violations:
+                    stop[0] = True
     chunk = (nruns + workers - 1) // workers
     ws = []
     ths = []
@@ -174,7 +193,7 @@ def run_batch(exe, base_args, nruns, workers, env=None, wrapper=None, start=0, b
             continue
         wk = Worker(exe, base_args, a, b, env=env, wrapper=wrapper)
         ws.append(wk)
-        th = threading.Thread(target=wk.run, args=(on_result, stall_timeout))
+        th = threading.Thread(target=wk.run, args=(on_result, stall_timeout, stop))
         th.start()
         ths.append(th)
     for th in ths:
